@@ -115,7 +115,16 @@ let eval inp obs =
   let tc = if no_check then [] else tc in
   let project toks = List.filter (fun t -> not ((no_released && String.length t > 1 && String.sub t 0 2 = "R.")
                                               || (no_check && String.length t > 1 && String.sub t 0 2 = "C."))) toks in
-  let ops = List.map parse_op (List.filter (fun o -> match o with ["G"; _] | ["O"; _] -> false | _ -> true) ops) in
+  (* "R k": the SAME Go object as the k-th push is pushed again; for the buffer it is a new copy of
+     the same event *)
+  let ops =
+    let pushes = ref [] in
+    List.map (fun o ->
+      let p = (match o with
+        | ["R"; k] -> (try List.nth (List.rev !pushes) (int_of_string k) with _ -> failwith "bad re-push")
+        | _ -> parse_op o) in
+      (match p with OpPush _ -> pushes := p :: !pushes | _ -> ());
+      p) (List.filter (fun o -> match o with ["G"; _] | ["O"; _] -> false | _ -> true) ops) in
   let ltok, obs_rest, ops =
     if not concurrent then [], obs, ops else
     (match obs with
